@@ -149,6 +149,10 @@ func (e *SpecEnv) Eval(x SExpr) Val {
 		e.x.need(n.Name)
 		specFail("unknown name %s", n.Name)
 	case *SOld:
+		if e.head != nil {
+			// per-iteration clause: old() is the head of the iteration, locals included
+			return e.inSnapshot(e.head, n.X)
+		}
 		c := *e
 		if e.old == nil {
 			specFail("old() not available here")
